@@ -253,3 +253,18 @@ pub proof fn lemma_rm_at(off: int, r: int, rr: int, i: int, j: int)
 {
   vstd::arithmetic::div_mod::lemma_fundamental_div_mod_converse(j * r + i, r, j, i);
 }
+
+// total number of elements of the first n blocks
+pub open spec fn total(es: Seq<Mat>, n: int) -> int
+  decreases n,
+{
+  if n <= 0 { 0 } else { total(es, n - 1) + es[n - 1].d@.len() }
+}
+
+pub proof fn lemma_total_mono(es: Seq<Mat>, a: int, b: int)
+  requires 0 <= a <= b,
+  ensures 0 <= total(es, a) <= total(es, b),
+  decreases b,
+{
+  if b > 0 { if a < b { lemma_total_mono(es, a, b - 1); } else { lemma_total_mono(es, a - 1, b - 1); } }
+}
